@@ -1252,10 +1252,10 @@ def regenerate(pid, ROOT, BUILD):
         name = ent["name"]
         try:
             text, count = translate_entry(ent)
-        except (Unsupported, OSError, ValueError, KeyError, IndexError) as e:
+        except Exception as e:      # anything the translator cannot digest (also a crash on an unexpected shape) is a failed obligation
             info["obligations"] += 1
             info["failed"].append(name)
-            info.setdefault("logs", {})[name] = "translation failed: %s" % (e,)
+            info.setdefault("logs", {})[name] = "translation failed: %s%s" % ("" if isinstance(e, Unsupported) else type(e).__name__ + ": ", e)
             info["bodies"][name] = "untranslatable"
             continue
         f = os.path.join(gen, "Body_%s.v" % name)
